@@ -235,6 +235,10 @@ def strat_numpy(draw, tier=None):
     return {"signed": signed, "n_bits": n_bits, "n_frac": n_frac,
             "shape": shape, "values": vals,
             "float32": draw(st.integers(0, 5)) == 0,
+            # whole numbers handed over in an integer array
+            "int_dtype": draw(st.sampled_from(
+                [None] * 6 + ["int8", "int16", "int32", "int64", "uint8",
+                              "uint32"])),
             "layout": draw(st.sampled_from(["C", "C", "F", "T", "strided"]))}
 
 
@@ -249,6 +253,16 @@ def check_numpy(case):
     with np.errstate(all="ignore"):
         arr = np.array(vals, dtype=np.float64).astype(dt).reshape(
             case["shape"])
+    idt = case.get("int_dtype")
+    if idt and not case["float32"]:
+        info = np.iinfo(idt)
+        with np.errstate(all="ignore"):
+            whole = np.clip(np.nan_to_num(np.trunc(arr), nan=0.0),
+                            float(info.min) / 2, float(info.max) / 2)
+        arr = whole.astype(idt)
+        dt = np.dtype(idt)
+    else:
+        idt = None
     # memory layouts other than a fresh C-contiguous array
     layout = case.get("layout", "C")
     if layout == "F" and arr.ndim >= 2:
@@ -302,6 +316,7 @@ def check_numpy(case):
             "classes": ["bits%d" % n_bits, "ndim%d" % len(case["shape"]),
                         "layout-" + layout] +
                        (["float32"] if case["float32"] else []) +
+                       (["dtype-" + idt] if idt else []) +
                        (["empty"] if not flat_in else [])}
 
 
